@@ -23,6 +23,8 @@ func Creator(ctx context.Context, name string, options map[string]string) (physi
 	defer f.Close()
 
 	fields := make(map[string]octosql.Type)
+	// Number of previewed rows each key was present in. A key which is absent from some row is NULL there.
+	fieldOccurrences := make(map[string]int)
 
 	sc := bufio.NewScanner(f)
 	sc.Buffer(nil, 1024*1024)
@@ -44,6 +46,7 @@ func Creator(ctx context.Context, name string, options map[string]string) (physi
 		}
 
 		o.Visit(func(key []byte, v *fastjson.Value) {
+			fieldOccurrences[string(key)]++
 			if t, ok := fields[string(key)]; ok {
 				fields[string(key)] = octosql.TypeSum(t, getOctoSQLType(v))
 			} else {
@@ -57,6 +60,9 @@ func Creator(ctx context.Context, name string, options map[string]string) (physi
 
 	var schemaFields []physical.SchemaField
 	for k, t := range fields {
+		if fieldOccurrences[k] < i {
+			t = octosql.TypeSum(t, octosql.Null)
+		}
 		schemaFields = append(schemaFields, physical.SchemaField{
 			Name: k,
 			Type: t,
